@@ -1,6 +1,7 @@
 package jschema
 
 import (
+	schema "github.com/jsightapi/jsight-schema-core"
 	"github.com/jsightapi/jsight-schema-core/notations/jschema/ischema"
 	"github.com/jsightapi/jsight-schema-core/notations/jschema/ischema/constraint"
 )
@@ -50,5 +51,29 @@ func UserTypeNamesFromTypesListConstraint(node ischema.Node) []string {
 		}
 	}
 
+	// A rule-set with additional rules (for instance `{type: "@foo", nullable: true}`)
+	// is kept as an unnamed type, so we should look for the reference inside it.
+	for _, item := range list.ASTNode().Items {
+		if item.TokenType != schema.TokenTypeObject || item.Properties == nil {
+			continue
+		}
+		t, ok := item.Properties.Get("type")
+		if !ok || t.TokenType != schema.TokenTypeShortcut {
+			continue
+		}
+		if !contains(res, t.Value) {
+			res = append(res, t.Value)
+		}
+	}
+
 	return res
+}
+
+func contains(ss []string, s string) bool {
+	for _, v := range ss {
+		if v == s {
+			return true
+		}
+	}
+	return false
 }
